@@ -138,7 +138,7 @@ Proof.
   set (a1 := (J - (1 # 2))%Q).
   assert (A1 : (2097152 <= a1)%Q /\ (a1 < 4194304)%Q) by (unfold a1, jd1 in *; split; lra).
   assert (A1M : (a1 * P31 == Qz (m0 - 1073741824))%Q).
-  { unfold a1. rewrite JM. unfold P31, Qz, Z.sub. rewrite inject_Z_plus. change (inject_Z (-1073741824)) with (-1073741824 # 1)%Q. field. }
+  { unfold a1. rewrite JM. unfold P31, Qz, Z.sub. rewrite inject_Z_plus, inject_Z_opp. change (inject_Z 1073741824) with (1073741824 # 1)%Q. field. }
   pose proof (rn53_exact a1 _ (proj1 A1) (proj2 A1) A1M) as EA1.
   assert (FL : Qfloor (rn53 a1) = k).
   { rewrite EA1. apply Qfloor_unique; unfold a1, jd1 in *; lra. }
@@ -155,13 +155,12 @@ Proof.
   assert (DZ : rn53 (jd1 - rn53 (Qz k + (1 # 2))) = 0%Q) by (apply rn53_zero; rewrite DAY; ring).
   rewrite DZ in Q.
   assert (F1 : (rn53 (jd1 - 0) == jd1)%Q).
-  { rewrite (rn53_comp (jd1 - 0) (Qz k + (1 # 2))) by (unfold jd1; ring). exact DAY. }
+  { assert (R : rn53 (jd1 - 0) = rn53 (Qz k + (1 # 2))) by (apply rn53_comp; unfold jd1; ring). rewrite R. exact DAY. }
   assert (S1 : (rn53 (jd2 + 0) == jd2)%Q).
-  { rewrite (rn53_comp (jd2 + 0) jd2) by ring. exact D2. }
+  { assert (R : rn53 (jd2 + 0) = rn53 jd2) by (apply rn53_comp; ring). rewrite R. exact D2. }
   destruct (split_all_off jd1 jd2) as [O1 O2].
   assert (I1 : (jd_int_q (jd1 + jd2) == jd1)%Q).
-  { unfold jd1. setoid_replace (Qz k + (1 # 2) + jd2)%Q with (Qz k + (1 # 2) + jd2)%Q by reflexivity.
-    apply jd_int_of_grid; lra. }
+  { unfold jd1. apply jd_int_of_grid; lra. }
   rewrite Q. cbn [fst snd]. rewrite O1, O2, F1, S1, I1. unfold jd_frac_q. rewrite I1.
   split; [reflexivity|]. split; [ring|]. split; reflexivity.
 Qed.
